@@ -3,7 +3,7 @@ use crate::JsValue;
 use crate::value::JsVariant;
 use crate::vm::opcode::{IndexOperand, RegisterOperand};
 use crate::{
-    Context, JsNativeError, JsResult,
+    Context, JsNativeError, JsObject, JsResult,
     builtins::function::set_function_name,
     object::{internal_methods::InternalMethodPropertyContext, shape::slot::SlotAttributes},
     property::{PropertyDescriptor, PropertyKey},
@@ -46,17 +46,22 @@ fn set_by_name(
                     context,
                 )?;
             }
-        } else if slot.attributes.contains(SlotAttributes::PROTOTYPE) {
-            let prototype = shape.prototype().expect("prototype should have value");
-            let mut prototype = prototype.borrow_mut();
-
-            prototype.properties_mut().storage[slot_index] = value.clone();
-        } else {
-            drop(object_borrowed);
-            let mut object_borrowed = object.borrow_mut();
-            object_borrowed.properties_mut().storage[slot_index] = value.clone();
+            return Ok(());
         }
-        return Ok(());
+
+        // A data property can only be overwritten in place if it is a writable own property of
+        // the receiver itself. In every other case (`super.x = v` with another `this`, a property
+        // found on the prototype) the property has to be defined on the receiver.
+        if slot.attributes.contains(SlotAttributes::WRITABLE)
+            && !slot.attributes.contains(SlotAttributes::PROTOTYPE)
+            && receiver
+                .as_object()
+                .is_some_and(|receiver| JsObject::equals(&receiver, &object))
+        {
+            drop(object_borrowed);
+            object.borrow_mut().properties_mut().storage[slot_index] = value;
+            return Ok(());
+        }
     }
     drop(object_borrowed);
 
